@@ -1,6 +1,7 @@
 package props
 
 import (
+	"go/constant"
 	"strconv"
 	"sort"
 	"fmt"
@@ -148,6 +149,18 @@ func condAtom(v ssa.Value, truth bool) (string, bool) {
 	}
 	switch x := v.(type) {
 	case *ssa.BinOp:
+		// b == true / b != false / b == false ...: the boolean itself
+		if x.Op == token.NEQ || x.Op == token.EQL {
+			for _, pr := range [][2]ssa.Value{{x.X, x.Y}, {x.Y, x.X}} {
+				if k, ok := pr[1].(*ssa.Const); ok && k.Value != nil && k.Value.Kind() == constant.Bool {
+					t := truth
+					if constant.BoolVal(k.Value) != (x.Op == token.EQL) {
+						t = !t
+					}
+					return condAtom(pr[0], t)
+				}
+			}
+		}
 		if x.Op == token.NEQ || x.Op == token.EQL {
 			var o ssa.Value
 			if c, ok := x.Y.(*ssa.Const); ok && c.IsNil() {
